@@ -102,6 +102,14 @@ impl Searcher {
             }
         }
 
+        // Always answer with a move when one exists, even if the clock ran out before depth 1 completed
+        if best_move.is_none() {
+            let moves = self.move_generator.generate_moves(board);
+            if !moves.is_empty() {
+                best_move = Some(moves[0]);
+            }
+        }
+
         (best_score, best_move)
     }
 
